@@ -129,6 +129,7 @@ def directed_pool():
          'a{128}', 'a{129}', 'a{127,128}', 'a{0,128}', 'a{0,129}', 'a{,129}', 'a{99999999999}', 'a{1,99999999999}', 'a{2147483648}', 'a**', 'a*+', 'a+*?', '*', '+a', '?',
          '^*', '$*', '^^', '$$', 'a^', '$a', '.*.*.*.*x', '(a*)*', '(a*)+', '(a|)*', '(()*)*', '(a{0,2}){0,2}', '((a{2}){2}){2}', '(((a{8}){8}){8})', 'a{100}{100}',
          '\xc3', 'a\xc3', '[\xc3]', '[\xe2\x82]', '\xe2\x82', '.\xf0\x9f', '[a-\xc3]', '\xff', '[\xff-\xfe]', '\x80', '[^\x80]']
+    P += ['\xc1\xa1', '\xc0\xaf', '\xe0\x81\xa1', '\xf0\x80\x81\xa1', 'b\xc1\xa1', '\xc1\xa1+', '[\xc1\xa1]', '\xe0\x81\xa1\xc3\xa9', '\xf8\x88\x80\x80\x80']     # overlong / invalid encodings of 'a' etc.: equal code point, other length
     P.append('(' * 63 + 'a' + ')' * 63)
     P.append('(' * 64 + 'a' + ')' * 64)
     P.append('(' * 65 + 'a' + ')' * 65)
